@@ -29,11 +29,22 @@ struct Slot {
 	parked: Option<(&'static str, Fields)>,
 	released: bool,
 	done: bool,
+	/// the actor announced (emit) that it is about to block inside the library
+	waiting: Option<(&'static str, Fields)>,
 }
 
 #[derive(Debug, Clone, PartialEq)]
 pub enum Status {
 	Parked(&'static str, Fields),
+	Done,
+	Timeout,
+}
+
+/// `Status` plus: the actor reported `site` by an event and is now blocked inside the library (not at a gate).
+#[derive(Debug, Clone, PartialEq)]
+pub enum StatusW {
+	Parked(&'static str, Fields),
+	Waiting(&'static str, Fields),
 	Done,
 	Timeout,
 }
@@ -45,17 +56,95 @@ pub struct GateSink {
 	events: Mutex<Vec<(u64, &'static str, Fields)>>,
 	record: std::sync::atomic::AtomicBool,
 	armed_for: Mutex<HashMap<u64, &'static str>>,
+	/// site -> token: EVERY thread reaching `site` parks under `token` (background tasks, which run on threads the
+	/// driver does not own)
+	site_gates: Mutex<HashMap<&'static str, u64>>,
+	/// sites at which actors do not park
+	ignored: Mutex<Vec<&'static str>>,
+	/// events that put an actor into `Status::Waiting`
+	wait_events: Mutex<Vec<&'static str>>,
+	/// everything runs freely (end of a scenario)
+	free: std::sync::atomic::AtomicBool,
 }
 
 impl GateSink {
 	pub fn install() -> Arc<GateSink> {
 		let s = Arc::new(GateSink::default());
+		// drivers written before this gate existed do not expect it; `clear_ignored` turns it on
+		for site in ["stall.check", "close.signalled", "close.drained", "close.stop_sent", "close.tasks_idle", "close.joined"] {
+			s.ignore(site);
+		}
 		surrealkv::verif::set_sink(Some(s.clone() as Arc<dyn Sink>));
 		s
 	}
 
 	pub fn set_record(&self, on: bool) {
 		self.record.store(on, std::sync::atomic::Ordering::SeqCst);
+	}
+
+	/// Park every thread that reaches `site` (under `token`), until `free_run`.
+	pub fn gate_site(&self, site: &'static str, token: u64) {
+		self.site_gates.lock().unwrap().insert(site, token);
+	}
+
+	/// Actors run through `site` without parking.
+	pub fn ignore(&self, site: &'static str) {
+		self.ignored.lock().unwrap().push(site);
+	}
+
+	pub fn dump(&self) -> String {
+		let g = self.slots.lock().unwrap();
+		g.iter().map(|(t, s)| format!("{t}:{:?}/rel={}/done={}/wait={:?}", s.parked.as_ref().map(|p| p.0), s.released, s.done, s.waiting.as_ref().map(|p| p.0))).collect::<Vec<_>>().join(" ")
+	}
+
+	pub fn clear_ignored(&self) {
+		self.ignored.lock().unwrap().clear();
+	}
+
+	/// Wait until the actor is parked at a gate or done.
+	pub fn status(&self, token: u64, timeout: Duration) -> Status {
+		let g = self.slots.lock().unwrap();
+		let (g, res) = self
+			.cv
+			.wait_timeout_while(g, timeout, |m| match m.get(&token) {
+				Some(s) => !(s.done || (s.parked.is_some() && !s.released)),
+				None => true,
+			})
+			.unwrap();
+		if res.timed_out() {
+			return Status::Timeout;
+		}
+		let s = g.get(&token).unwrap();
+		if s.done {
+			Status::Done
+		} else {
+			let (site, f) = s.parked.clone().unwrap();
+			Status::Parked(site, f)
+		}
+	}
+
+	/// An `emit(site)` on an actor's thread marks the actor as waiting inside the library.
+	pub fn wait_event(&self, site: &'static str) {
+		self.wait_events.lock().unwrap().push(site);
+	}
+
+	/// Release everything now and in future: no gate parks any more.
+	pub fn free_run(&self, on: bool) {
+		self.free.store(on, std::sync::atomic::Ordering::SeqCst);
+		if on {
+			let mut g = self.slots.lock().unwrap();
+			for s in g.values_mut() {
+				s.released = true;
+			}
+			self.cv.notify_all();
+		}
+	}
+
+	/// Forget all slots and site gates (between scenarios).
+	pub fn reset(&self) {
+		self.slots.lock().unwrap().clear();
+		self.site_gates.lock().unwrap().clear();
+		self.armed_for.lock().unwrap().clear();
 	}
 
 	pub fn take_events(&self) -> Vec<(u64, &'static str, Fields)> {
@@ -103,25 +192,27 @@ impl GateSink {
 		matches!(self.status(token, timeout), Status::Parked(..))
 	}
 
-	/// Wait until the actor is parked at a gate or done.
-	pub fn status(&self, token: u64, timeout: Duration) -> Status {
+	/// Wait until the actor is parked at a gate, blocked after a wait event, or done.
+	pub fn status_w(&self, token: u64, timeout: Duration) -> StatusW {
 		let g = self.slots.lock().unwrap();
 		let (g, res) = self
 			.cv
 			.wait_timeout_while(g, timeout, |m| match m.get(&token) {
-				Some(s) => !(s.done || (s.parked.is_some() && !s.released)),
+				Some(s) => !(s.done || (s.parked.is_some() && !s.released) || s.waiting.is_some()),
 				None => true,
 			})
 			.unwrap();
 		if res.timed_out() {
-			return Status::Timeout;
+			return StatusW::Timeout;
 		}
 		let s = g.get(&token).unwrap();
 		if s.done {
-			Status::Done
+			StatusW::Done
+		} else if let (Some((site, f)), false) = (s.parked.clone(), s.released) {
+			StatusW::Parked(site, f)
 		} else {
-			let (site, f) = s.parked.clone().unwrap();
-			Status::Parked(site, f)
+			let (site, f) = s.waiting.clone().unwrap();
+			StatusW::Waiting(site, f)
 		}
 	}
 
@@ -136,17 +227,34 @@ impl GateSink {
 	}
 
 	fn park(&self, token: u64, site: &'static str, fields: &[(&'static str, u64)], persistent: bool) {
+		if self.free.load(std::sync::atomic::Ordering::SeqCst) {
+			return;
+		}
+		// A thread of a multi-thread tokio runtime (the engine's background tasks) must hand its run queue over before it
+		// blocks: a task it has just woken sits in its LIFO slot, where no other worker can reach it.
+		let on_worker = tokio::runtime::Handle::try_current()
+			.map(|h| h.runtime_flavor() == tokio::runtime::RuntimeFlavor::MultiThread)
+			.unwrap_or(false);
+		if on_worker {
+			tokio::task::block_in_place(|| self.park_wait(token, site, fields, persistent));
+		} else {
+			self.park_wait(token, site, fields, persistent);
+		}
+	}
+
+	fn park_wait(&self, token: u64, site: &'static str, fields: &[(&'static str, u64)], persistent: bool) {
 		let mut g = self.slots.lock().unwrap();
 		{
 			let s = g.entry(token).or_default();
 			s.parked = Some((site, fields.to_vec()));
 			s.released = false;
+			s.waiting = None;
 		}
 		self.cv.notify_all();
 		let (mut g, _) = self
 			.cv
 			.wait_timeout_while(g, Duration::from_secs(120), |m| {
-				!m.get(&token).map(|s| s.released).unwrap_or(true)
+				!m.get(&token).map(|s| s.released).unwrap_or(true) && !self.free.load(std::sync::atomic::Ordering::SeqCst)
 			})
 			.unwrap();
 		if persistent {
@@ -161,6 +269,13 @@ impl GateSink {
 
 impl Sink for GateSink {
 	fn emit(&self, ticket: u64, site: &'static str, fields: &[(&'static str, u64)]) {
+		if let Some(token) = ACTOR.with(|a| *a.borrow()) {
+			if self.wait_events.lock().unwrap().contains(&site) {
+				let mut g = self.slots.lock().unwrap();
+				g.entry(token).or_default().waiting = Some((site, fields.to_vec()));
+				self.cv.notify_all();
+			}
+		}
 		if self.record.load(std::sync::atomic::Ordering::Relaxed) {
 			self.events.lock().unwrap().push((ticket, site, fields.to_vec()));
 		}
@@ -169,6 +284,19 @@ impl Sink for GateSink {
 	fn gate(&self, ticket: u64, site: &'static str, fields: &[(&'static str, u64)]) {
 		self.emit(ticket, site, fields);
 		if let Some(token) = ACTOR.with(|a| *a.borrow()) {
+			if std::env::var("BG_DEBUG").is_ok() {
+				eprintln!("{:?} gate {site} actor={token}", std::time::SystemTime::now().duration_since(std::time::UNIX_EPOCH).unwrap().as_millis() % 100000);
+			}
+			if !self.ignored.lock().unwrap().contains(&site) {
+				self.park(token, site, fields, true);
+			}
+			return;
+		}
+		let site_token = self.site_gates.lock().unwrap().get(site).copied();
+		if std::env::var("BG_DEBUG").is_ok() {
+			eprintln!("{:?} gate {site} thread={:?} actor=None site_token={site_token:?} free={}", std::time::SystemTime::now().duration_since(std::time::UNIX_EPOCH).unwrap().as_millis() % 100000, std::thread::current().id(), self.free.load(std::sync::atomic::Ordering::SeqCst));
+		}
+		if let Some(token) = site_token {
 			self.park(token, site, fields, true);
 			return;
 		}
